@@ -370,3 +370,77 @@ def e6(ctx):
 def e7(ctx):
     from .c05 import l0
     return l0(ctx)
+
+
+@rule("C02", "E8", floor=2, kind="S",
+      desc="a body sent under the new ETag is the new body: a PUT response that carries the ETag of the write carries no "
+           "body, or one that is read from a resource looked up after the write (the object resolved before the write is "
+           "pinned to the old ETag and serves the replaced bytes)")
+def e8(ctx):
+    from ..dataflow import value_roots
+    F = None
+    fi = ctx.func("xandikos.webdav.PutMethod.handle")
+    cfg = ctx.cfg(fi)
+    du = DefUse(cfg)
+    effects = [n for n in cfg.stmt_nodes() for c in n.calls() if isinstance(c.func, ast.Attribute) and c.func.attr in ("set_body", "create_member")]
+    if len(effects) < 2:
+        raise AnalysisError("PutMethod.handle: set_body / create_member calls not found")
+    obs = []
+    for eff in effects:
+        after = cfg.reachable([m for m, l in eff.succ if l != "exc"])
+        rets = [r for r in cfg.nodes if r.kind == "return" and r.id in after and r.ast.value is not None]
+        if not rets:
+            raise AnalysisError("PutMethod.handle: no response after `%s`" % src(eff.ast)[:40])
+        stale = []
+        for r in rets:
+            for o in origins(du, r, r.ast.value):
+                resp = o.leaf
+                if not (o.kind == "expr" and isinstance(resp, ast.Call) and (dotted(resp.func) or "").split(".")[-1] == "Response"):
+                    continue
+                body = next((k.value for k in resp.keywords if k.arg == "body"), None)
+                if body is None:
+                    continue
+                # where does the body come from: <R>.get_body() / render() of which resource object?
+                for bo in origins(du, o.node or r, body):
+                    call = bo.leaf.value if isinstance(bo.leaf, ast.Await) else bo.leaf
+                    if not (bo.kind == "expr" and isinstance(call, ast.Call) and isinstance(call.func, ast.Attribute)):
+                        stale.append((r, "`%s`" % src(body)[:40]))
+                        continue
+                    for ro in origins(du, bo.node or r, call.func.value):
+                        if ro.kind == "param" or ro.node is None or ro.node.id not in after:
+                            stale.append((r, "`%s` of a resource object resolved before the write" % src(call)[:40]))
+        obs.append(ctx.ob(not stale, fi.qualname, where(fi, eff), "responses after `%s` carry no stale body" % src(eff.ast)[:30],
+                          "no body, or a body read after the write",
+                          "the response to a PUT sends %s together with the ETag of the write: the bytes are those of the version that "
+                          "was just replaced, so two different bodies are observed under one ETag" % (stale[0][1] if stale else "")))
+    return obs
+
+
+@rule("C02", "E9", floor=1, kind="S",
+      desc="the bytes GET sends under an ETag are the rendered representation itself: the body of the 200 response is the "
+           "body render() returned with that ETag, not a re-encoded or transformed copy (a content-coding needs its own "
+           "validator)")
+def e9(ctx):
+    fi = ctx.func("xandikos.webdav._do_get")
+    cfg = ctx.cfg(fi)
+    du = DefUse(cfg)
+    obs = []
+    n = 0
+    for r in [x for x in cfg.nodes if x.kind == "return" and x.ast.value is not None]:
+        for o in origins(du, r, r.ast.value):
+            resp = o.leaf
+            if not (o.kind == "expr" and isinstance(resp, ast.Call) and (dotted(resp.func) or "").split(".")[-1] == "Response"):
+                continue
+            body = next((k.value for k in resp.keywords if k.arg == "body"), None)
+            if body is None:
+                continue
+            n += 1
+            bos = origins(du, o.node or r, body)
+            ok = bool(bos) and all(b.kind == "expr" and tuple(b.path) == (0,) and isinstance(b.leaf.value if isinstance(b.leaf, ast.Await) else b.leaf, ast.Call)
+                                   and (dotted((b.leaf.value if isinstance(b.leaf, ast.Await) else b.leaf).func) or "").endswith(".render") for b in bos)
+            obs.append(ctx.ob(ok, fi.qualname, where(fi, r), "200 body is render()'s body", "body <- (await r.render(...))[0]",
+                              "the body of the 200 response (`%s`) is not the body render() returned together with the ETag: the same "
+                              "ETag is sent with different byte sequences" % src(body)[:50]))
+    if n == 0:
+        raise AnalysisError("_do_get: no response with a body found")
+    return obs
